@@ -76,3 +76,46 @@ def compare(ctx, metas, reqs, what='observation'):
             ctx.disagreement(f'{what}: implementation and model differ',
                              {'function': name, 'area': area, 'state': gen.show_state(cs), 'wire_state': cs,
                               'impl': [kind, val, log], 'model': [mk, mv, mlog]})
+
+
+def run_histories(ctx, n, check=None):
+    """Observation functions are history-free: several observations (different functions, the same or a different view) of ONE python
+    state object which is, in between, moved / turned / actuated IN PLACE by the registered transition functions and copied the way
+    GridWorld copies states (pickle round trip).  Every observation is compared with the model on the state's current value and handed
+    to `check(name, area, cs, kind, val, obs, state)`; an observation must not modify the state it is given."""
+    import pickle
+    from gym_gridverse.envs import transition_functions as tf
+    r = ctx.rng
+    metas, reqs = [], []
+    for _ in range(n):
+        cs = tagged_state(r, 2, 7)
+        if r.random() < 0.5:
+            cs = (cs[0], cs[1], 0, cs[3])       # facing FORWARD: the only heading whose rotation is the identity (shares rows)
+        s = wire.mkstate(cs)
+        area0 = rand_area(r, centered=0.8)
+        for _step in range(r.randint(2, 6)):
+            k = r.random()
+            if k < 0.6:
+                name = r.choice(ONAMES)
+                area = area0 if r.random() < 0.8 else rand_area(r)
+                now = wire.cstate(s)
+                kind, val, log, tape, obs, _ = run_obs(name, area, now, seed=r.randrange(1 << 30), state=s)
+                ctx.count('history event', 'observe')
+                ctx.case(('hist', name, area, now, _step), True, None)
+                if wire.cstate(s) != now:
+                    ctx.violation(f'{name} modified the state it observed', {'function': name, 'area': area, 'state': gen.show_state(now), 'wire_state': now})
+                if check is not None:
+                    check(name, area, now, kind, val, obs, s)
+                metas.append((name, area, now, kind, val, log))
+                reqs.append(obs_request(name, area, now, tape))
+            elif k < 0.88:
+                fn = r.choice(['move_agent', 'move_agent', 'turn_agent', 'turn_agent', 'actuate_door', 'pickndrop', 'actuate_box'])
+                try:
+                    tf.transition_function_registry[fn](s, r.choice(impl.ACTS))      # in place
+                except Exception:  # noqa: BLE001  (not this property's business)
+                    pass
+                ctx.count('history event', 'in-place ' + fn)
+            else:
+                s = pickle.loads(pickle.dumps(s))
+                ctx.count('history event', 'copy')
+    compare(ctx, metas, reqs, what='observation after a history of other calls')
